@@ -440,6 +440,11 @@ func upstreamProcsForProc(proc WorkflowProcess) map[string]WorkflowProcess {
 	}
 	for _, pip := range proc.InParamPorts() {
 		for _, rpp := range pip.RemotePorts {
+			// Feeder ports created by FromStr/FromInt/FromFloat belong to
+			// the receiving process itself, which is not its own upstream
+			if rpp.Process() == proc {
+				continue
+			}
 			procs[rpp.Process().Name()] = rpp.Process()
 			mergeWFMaps(procs, upstreamProcsForProc(rpp.Process()))
 		}
